@@ -131,3 +131,96 @@ def check(pid, cases, work, harness):
                                 detail=dict(file=e['file'], line=e['line'], code=e['code'][:120], got=got, expected=exps[:2])))
                 break
     return stats, bad
+
+
+PLAIN = {'method_declaration': [('x.getName()', 'name'), ('x.getVisibility()', 'mod'), ('x.getReturnType()', 'ret'), ('x.getArgumentType()', 'argt'), ('x.getArgumentName()', 'argv'),
+                                ('x.getThrowsType()', 'throws'), ('x.getAnnotation()', 'annot')],
+         'class_declaration': [('x.getName()', 'name'), ('x.getVisibility()', 'mod'), ('x.getSuperClass()', 'super'), ('x.getInterface()', 'iface'), ('x.getAnnotation()', 'annot')],
+         'variable_declaration': [('x.getName()', 'name'), ('x.getVisibility()', 'mod'), ('x.getVariableDataType()', 'dtype'), ('x.getVariableValue()', 'value'), ('x.getScope()', 'scope')]}
+
+
+def _plain(field):
+    def f(n):
+        v = n[field]
+        if v.startswith('['):
+            return [bytes.fromhex(t[1:]).decode('utf-8', 'replace') for t in re.findall(r'x[0-9a-f]*', v)]
+        return bytes.fromhex(v[1:]).decode('utf-8', 'replace')
+    return f
+
+
+def check_pairs(pid, cases, work, harness, npairs=8, seed=1):
+    """the same attributes when TWO entities are selected together: every column must be the attribute of the entity
+    bound to ITS alias in that combination (both orders of the FROM list). -> (stats, violations)"""
+    import random, shutil
+    stats, bad = Counter(), []
+    rng = random.Random('objpairs/%s/%d' % (pid, seed))
+    proj = os.path.join(work, 'objpairs')
+    shutil.rmtree(proj, ignore_errors=True)
+    os.makedirs(proj, exist_ok=True)
+    for c in cases:
+        open(os.path.join(proj, c['id'] + '.java'), 'wb').write(c['data'])
+    dump = os.path.join(work, 'objpairs_graph.txt')
+    p = subprocess.run([harness, 'init-dump', proj, dump], capture_output=True, timeout=900, env=dict(os.environ, HOME=work))
+    if p.returncode != 0:
+        return stats, [dict(what='init-dump failed', detail=p.stderr.decode(errors='replace')[-300:])]
+    by, count = {}, Counter()
+    for line in open(dump):
+        if line.startswith('NODE '):
+            n = scan.parse_kv(line.rstrip('\n'))
+            k = scan.unhx(n['type']).decode()
+            count[k] += 1
+            by.setdefault((k, scan.unhx(n['file']).decode('utf-8', 'replace'), int(n['line']), scan.unhx(n['snippet']).decode('utf-8', 'replace')), []).append(n)
+    vw = {k: list(v) for k, v in views(pid).items()}
+    if pid == 'C05':
+        for k, items in PLAIN.items():
+            vw.setdefault(k, [])
+            vw[k] = vw[k] + [(e, _plain(f)) for e, f in items]
+    kinds = [k for k in vw if 0 < count[k]]
+    queries, meta = [], {}
+    for i in range(npairs):
+        if len(kinds) < 2:
+            break
+        k1, k2 = rng.sample(kinds, 2)
+        if count[k1] * count[k2] > 20000:
+            continue
+        (e1, f1), (e2, f2) = rng.choice(vw[k1]), rng.choice(vw[k2])
+        a1, a2 = rng.choice([('a', 'x'), ('x', 'xa'), ('m', 'c')])
+        r = lambda e, a: re.sub(r'^x\b', a, e)
+        qid = 'op%d' % i
+        queries.append((qid, 'FROM %s AS %s, %s AS %s SELECT %s, %s' % (k1, a1, k2, a2, r(e1, a1), r(e2, a2))))
+        meta[qid] = ((k1, f1), (k2, f2))
+    res, _ = qrun.run_queries(proj, queries, os.path.join(work, 'objpairs_q'))
+    for qid, q in queries:
+        oc, payload = res.get(qid, ('missing', ''))
+        if oc != 'ok':
+            bad.append(dict(what='two-entity query on accessors ended with %s' % oc, query=q, detail=payload[:200]))
+            continue
+        d = json.loads(payload)
+        rs, rows = d.get('result_set') or [], d.get('output') or []
+        if len(rs) != 2 * len(rows):
+            bad.append(dict(what='rows do not line up with results', query=q, detail='%d entries, %d rows' % (len(rs), len(rows))))
+            continue
+        stats['objpairs_queries'] += 1
+        for i, row in enumerate(rows):
+            stop = False
+            for pos in (0, 1):
+                kind, f = meta[qid][pos]
+                e = rs[2 * i + pos]
+                cands = by.get((kind, e['file'], e['line'], e['code']), [])
+                if not cands or '�' in e['code']:
+                    continue
+                exps = []
+                for n in cands:
+                    try:
+                        exps.append(f(n))
+                    except Exception:
+                        pass
+                stats['objpairs_values'] += 1
+                if exps and row[pos] not in exps:
+                    bad.append(dict(what='in a two-entity query a column is not the attribute of the entity bound to its alias', query=q,
+                                    detail=dict(column=pos, file=e['file'], line=e['line'], code=e['code'][:120], got=row[pos], expected=exps[:2])))
+                    stop = True
+                    break
+            if stop:
+                break
+    return stats, bad
